@@ -292,3 +292,75 @@ def end_tasks(tier, role, what=('routing', 'batching')):
                               (c['blocks'], c['strategy'], c['mode'], c['bsize'], L),
                        role=role, opts={'covers': covers}, budget=300))
     return ts
+
+
+# ------------------------------------------------------------------------------------ route (C09)
+
+def route_harness(w, nroutes, mode, bsize, iters, max_len):
+    from mirsym.values import FnItem
+    rnew = w.impls[(None, 'RoutingEnd')]['new'][0]
+    setup_endpoints = w.impls[(None, 'RoutingEnd')]['setup_endpoints'][0]
+    nxt = w.impls[('Operator', 'RoutingEnd')]['next'][0]
+    bnew = w.impls[(None, 'Batcher')]['new'][0]
+    hlib.check_se_table(w)
+    ns = dict(w.src.enum_variants('NextStrategy'))
+    preds = [z3.Function('route_pred_%d' % r, z3.BitVecSort(64), z3.BoolSort()) for r in range(nroutes)]
+
+    def h(ex):
+        own = hlib.coord(w, 1, 0, 0)
+        script = hlib.gen_script(ex, iters, max_len, 'ITW', ts_span=(1000, 6),
+                                 payload=lambda ex, k: ex.fresh_int('u64', 'x%d' % k))
+        routes = VecModel([Agg('tuple', None, [Int('u64', 10 + r),
+                                               Agg('struct', 'FilterFn', [FnItem('pred%d' % r, py=(lambda ex_, item, r=r: preds[r](deref(item).z())))], None)])
+                           for r in range(nroutes)])
+        bm = batch_mode(w, ex, mode, bsize)
+        end = ex.call_function(rnew, [hlib.Upstream(script), routes, Enum('NextStrategy', 'OnlyOne', ns['OnlyOne'], []), bm])
+        stubs, pairs = {}, []
+        for r in range(nroutes):
+            ep = hlib.mk_struct(w, 'ReceiverEndpoint', coord=hlib.coord(w, 10 + r, 0, 0), prev_block_id=Int('u64', 1))
+            st = SenderStub((10 + r, 0))
+            stubs[r] = st
+            pairs.append(Agg('tuple', None, [ep, ex.call_function(bnew, [st, deep_copy(bm), deep_copy(own)])]))
+        pairs.reverse()
+        end.set('senders', VecModel(pairs))
+        end.set('coord', some(deep_copy(own)))
+        holder = [end]
+        ex.call_function(setup_endpoints, [Ref(holder, 0)])
+        for el in script:
+            ex.call_function(nxt, [Ref(holder, 0)])
+        sx = lambda: {'routes': nroutes, 'script': [repr(e) for e in script],
+                      'sent': {str(k): [[repr(e) for e in b] for _, b in s.sent] for k, s in stubs.items()}}
+        # oracle: first route whose predicate holds, and no other; unmatched dropped; markers to every route
+        want = {r: [] for r in range(nroutes)}
+        for el in script:
+            if el.variant in ('Item', 'Timestamped'):
+                x = el.fields[0]
+                for r in range(nroutes):
+                    if ex.branch(preds[r](x.z()), 'oracle: predicate %d' % r):
+                        want[r].append(el)
+                        break
+                else:
+                    hlib.cover(ex, 'dropped')
+            elif el.variant in ('Watermark', 'FlushAndRestart', 'Terminate'):
+                for r in range(nroutes):
+                    want[r].append(el)
+        for r in range(nroutes):
+            got = stubs[r].flat()
+            if [e.variant for e in got] != [e.variant for e in want[r]]:
+                raise Violation('route %d received %s, expected %s' % (r, [e.variant for e in got],
+                                                                       [e.variant for e in want[r]]), hlib._wit(ex), sx())
+            for a, b in zip(got, want[r]):
+                if a.variant in ('Item', 'Timestamped'):
+                    check(ex, a.fields[0].z() == b.fields[0].z(), 'route delivered a different element', sx)
+                    hlib.cover(ex, 'routed')
+        return sx()
+    return h
+
+
+def route_tasks(tier, role):
+    cfgs = [(2, 'fixed', 2), (3, 'single', 1)] if tier == 'quick' else [(2, 'fixed', 2), (3, 'single', 1), (3, 'adaptive', 2)]
+    L = [2, 1] if tier == 'quick' else [3, 2]
+    return [Task('route_%d_%s%d' % (n, m, b), 'route_harness', {'nroutes': n, 'mode': m, 'bsize': b, 'iters': 2, 'max_len': L},
+                 bounds='RoutingEnd::setup_endpoints + next with %d routes (predicates uninterpreted), batch mode %s(%d), 2 '
+                        'iterations x <=%s elements' % (n, m, b, L), role=role,
+                 opts={'covers': ['routed', 'dropped']}, budget=300) for n, m, b in cfgs]
